@@ -63,7 +63,8 @@ def c07Monitors (impl : String) : List (String × String × String) :=
   | [v, after] =>
     match v.toNat? with
     | some n =>
-      (if n > 4 then [("undefined-verdict", "none", v)] else []) ++
+      -- `dhcp_defined_verdict`: the program returns XDP_PASS or XDP_TX, nothing else (no DROP / ABORTED / REDIRECT)
+      (if n != XDP_PASS && n != XDP_TX then [("undefined-verdict", "none", v)] else []) ++
       (if n == XDP_PASS && after != "same" then [("pass-modified", "none", "frame_changed_under_XDP_PASS")] else [])
     | none => [("undefined-verdict", "none", v)]
   | _ => [("undefined-verdict", "none", "unparseable")]
@@ -177,7 +178,13 @@ def c03RunMonitors (st : St) (f : Frame) (clkNs : Nat) (impl : String) : List (S
           let os := owners st.impl mapName key
           if os.isEmpty then [("answers-after-end", "none", s!"entry-without-lease:{mapName}:{bytesToHex key}")]
           else if os.all (fun l => decide (st.impl.now > l.exp)) then
-            let clause := if clkNs / 1000000000 != st.impl.now then "D11" else "none"
+            -- D11 only if the program's own test could not see the expiry: its clock (another time scale than
+            -- the slow path's) has not passed the entry's lease_expiry; a transmission although `now > lease_expiry`
+            -- on the program's clock is a different defect
+            let m := st.impl.maps
+            let entryExp := (AMap.lookup (if mapName == "cid" then m.cid else m.sub) key).map fun v => (rd64 v 13).toNat
+            let clkS := clkNs / 1000000000
+            let clause := if clkS != st.impl.now && entryExp.any (fun e => decide (clkS ≤ e)) then "D11" else "none"
             [("answers-after-end", clause, s!"lease-expired:{mapName}:{bytesToHex key}")]
           else []
         | none => []
@@ -197,26 +204,36 @@ def requestedAddr (reqBootp : List UInt8) : List UInt8 :=
     * `KF-fastpath-reqaddr`: userspace NAKs a REQUEST whose requested address (option 50, else ciaddr) is not the
       client's lease, the fast path ACKs the cached address without looking at either field;
     * `KF-opt53-fixed`: the program's fixed-offset scan for option 53 read another message type than a DHCP parser
-      reads from the same options (bytes `35 01 xx` inside an earlier option's value);
+      reads from the same options (bytes `35 01 xx` inside an earlier option's value) AND the message type is the only
+      difference (or userspace NAKs / does not answer a message that is no DISCOVER / REQUEST);
     * `KF-cid-foreign-mac`: the program answered from a circuit_id_subscribers entry whose lease belongs to another
       MAC (it keys on option 82 whatever giaddr and chaddr are; userspace looks a client up by MAC first and by
-      circuit-id only for relayed requests of unknown MACs);
+      circuit-id only for relayed requests of unknown MACs) AND the client address is the only difference (or
+      userspace NAKs the request);
     * `KF-srvcfg-unset`: server_config.server_ip is 0 (never configured) and the only difference, after the D10
       reversal, is the server identifier (the program falls back to the pool gateway). -/
 def compareReplies (reqBootp fb : List UInt8) (cachedIp : Option UInt32) (cfgZero foreignCid misread : Bool)
     (slow : Option (List UInt8)) : List (String × String × String) :=
+  let trueType := trueMsgType (reqBootp.drop 240)
   match slow with
   | some sb =>
     let fv := viewOf fb
     let sv := viewOf sb
+    let svr := sv.rev
+    -- a DHCPNAK carries the server identifier only: nothing else can be compared
+    let nakOk := sv.msgType == some [6] && fv.serverId == svr.serverId
     if fv == sv then []
-    else if fv == sv.rev then [("reply-differs", "D10", "addresses-byte-reversed")]
-    else if misread then [("reply-differs", "KF-opt53-fixed", "message-type-read-at-a-fixed-offset")]
-    else if foreignCid then [("reply-differs", "KF-cid-foreign-mac", "answered-from-another-clients-circuit-id-entry")]
-    else if sv.msgType == some [6] && fv.msgType == some [5] &&
+    else if fv == svr then [("reply-differs", "D10", "addresses-byte-reversed")]
+    -- KF-opt53-fixed explains a different message type and nothing else
+    else if misread && (nakOk || { fv with msgType := none } == { svr with msgType := none }) then
+      [("reply-differs", "KF-opt53-fixed", "message-type-read-at-a-fixed-offset")]
+    -- KF-cid-foreign-mac explains another client's address (or a NAK where userspace refuses it) and nothing else
+    else if foreignCid && (nakOk || { fv with yiaddr := [] } == { svr with yiaddr := [] }) then
+      [("reply-differs", "KF-cid-foreign-mac", "answered-from-another-clients-circuit-id-entry")]
+    else if nakOk && fv.msgType == some [5] &&
         cachedIp.map (fun ip => CacheEnc.ipWire ip) != some (requestedAddr reqBootp) then
       [("reply-differs", "KF-fastpath-reqaddr", "ack-for-an-address-userspace-naks")]
-    else if cfgZero && { fv with serverId := none } == { sv.rev with serverId := none } then
+    else if cfgZero && { fv with serverId := none } == { svr with serverId := none } then
       [("reply-differs", "KF-srvcfg-unset", "server-id-is-the-gateway")]
     else
       let d := if fv.msgType != sv.msgType then "message-type"
@@ -229,8 +246,9 @@ def compareReplies (reqBootp fb : List UInt8) (cachedIp : Option UInt32) (cfgZer
         else "mixed-byte-order"
       [("reply-differs", "none", d)]
   | none =>
-    if misread then [("reply-differs", "KF-opt53-fixed", "message-type-read-at-a-fixed-offset")]
-    else if foreignCid then [("reply-differs", "KF-cid-foreign-mac", "answered-from-another-clients-circuit-id-entry")]
+    -- userspace sends nothing: explained by KF-opt53-fixed only when the message really is no DISCOVER / REQUEST
+    if misread && trueType != some 1 && trueType != some 3 then
+      [("reply-differs", "KF-opt53-fixed", "message-type-read-at-a-fixed-offset")]
     else [("reply-differs", "none", "slow-path-sends-nothing")]
 
 /-! ### the implementation's state, as observed -/
